@@ -821,12 +821,13 @@ SETS_UNITS = [
       ("IPSet", "update:list", {"iterable": "list net"})] +
      [("IPSet", "__init__:" + t.split()[0], {"iterable": t}) for t in ("net", "iprange", "ipset", "list net")]),
 ]
-# IPNetwork.__getstate__ (netaddr/ip/__init__.py) for IPSet.__getstate__: a unit of its own, before the sets units
-SETS_IP_UNIT = (IPFILE, "pysrc_sets_ip_gen.v", "", "", [("IPNetwork", "__getstate__", {})])
+# IPNetwork.__getstate__ (netaddr/ip/__init__.py) for IPSet.__getstate__: the definition of the SRCD unit pysrc_ctor_gen.v, which
+# comes before the sets units (in SRCA's own clone it was a unit of its own, pysrc_sets_ip_gen.v, with the same generated text)
+SETS_IP_UNIT = (IPFILE, "pysrc_ctor_gen.v", "", "", [("IPNetwork", "__getstate__", {})])
 SETS_UNITS.append(
     (SETSFILE, "pysrc_sets_state_gen.v", "sets", SETS_REQ, [("IPSet", "__getstate__", {}), ("IPSet", "__setstate__", {"state": "list rng"})]))
-UNITS += [SETS_IP_UNIT] + SETS_UNITS
-FILES = FILES + (SETS_IP_UNIT[1],) + tuple(u[1] for u in SETS_UNITS)
+UNITS += SETS_UNITS
+FILES = FILES + tuple(u[1] for u in SETS_UNITS)
 SETS_FILES = tuple(u[1] for u in SETS_UNITS)
 STATE["IPSet"] = ()
 STATEVARS["IPSet"] = (("_cidrs", "dict"),)          # the dict `_cidrs` (IPNetwork keys, values True) = the list of its keys
@@ -5482,7 +5483,7 @@ class Translator:
 #     for sets_itemN in e: a, b = sets_itemN; body;  x.m(..) as a statement, for a local IPSet x and a method m that assigns the
 #     state -> x = x.m(..);  `assert` statements are dropped (they do not run under -O; the hand model has none).
 #   The names __sets_* are not Python names of the file; sets_rhs() turns them into the prelude symbols py_dict_*.
-BY_OUT = {}      # output file -> its Translator (filled by the wrapped Translator.__init__)
+# BY_OUT (output file -> its Translator) is defined above and filled by Translator.__init__
 
 
 def _sets_load(node):
@@ -6182,7 +6183,7 @@ def sets_owned(self, x):
 
 
 # ---- SRCA hooks
-_is_value0 = is_value
+_is_value0_srca = is_value
 _parse_type0 = parse_type
 # the class a declared parameter type stands for (IPGlob, the subclass of IPRange, is not told apart: `rng` is not used for
 # isinstance tests against IPGlob)
@@ -6199,7 +6200,7 @@ def parse_type(s):
 
 
 def is_value(t):
-    return t in SETS_VALUE_TYPES or _is_value0(t)
+    return t in SETS_VALUE_TYPES or _is_value0_srca(t)
 
 
 def _wrap(cls, name):
